@@ -174,6 +174,7 @@ class Worker(multiprocessing.Process):
         self.recv_lock = manager.Lock()
 
         self.pending_answers = dict()
+        self.pending_answers_lock = threading.Lock()
 
         self.update_associations()
         self.update_recv_queues()
@@ -250,7 +251,8 @@ class Worker(multiprocessing.Process):
 
 
     def insert_pending_answer(self, p_answer):
-        self.pending_answers.update({p_answer.msg.header.hop_by_hop: p_answer})
+        with self.pending_answers_lock:
+            self.pending_answers.update({p_answer.msg.header.hop_by_hop: p_answer})
 
 
     def remove_pending_answer(self, p_answer):
@@ -260,9 +262,12 @@ class Worker(multiprocessing.Process):
         #: Only the entry of this very waiter is withdrawn: a second copy of
         #: the same answer may get here after the caller has registered 
         #: again under the same Hop-by-Hop.
+        #: The test and the removal are one step with respect to a new
+        #: registration.
         hop_by_hop = p_answer.msg.header.hop_by_hop
-        if self.pending_answers.get(hop_by_hop) is p_answer:
-            self.pending_answers.pop(hop_by_hop, None)
+        with self.pending_answers_lock:
+            if self.pending_answers.get(hop_by_hop) is p_answer:
+                self.pending_answers.pop(hop_by_hop, None)
         p_answer.notify()
 
 
